@@ -457,7 +457,8 @@ Proof.
     cbv zeta. rewrite sv_set_state.
     destruct (c_passive (cf s)); [apply AS_refl|]. sv_push. apply as_send_contact_header.
   - (* OSend *)
-    destruct (closed s) eqn:Cl; [rewrite app_nil_r; apply AS_refl|]. cbv zeta.
+    destruct (closed s) eqn:Cl; cbn [orb]; [rewrite app_nil_r; apply AS_refl|].
+    destruct (in_term s) eqn:It; [rewrite app_nil_r, sv_emit_q by reflexivity; apply AS_refl|]. cbv zeta.
     rewrite sv_emit. sv_push. apply asteps_one.
     pose proof (A_queue (sv q s) data Cl) as H.
     cbn [succ_of send_ids flat_map app]. cbn [a_q a_nid a_ps a_ids sv] in H.
